@@ -40,10 +40,15 @@ def variant_case(inp):
         rec = {"how": how}
         for st in ("all", "comp", "bt"):
             try:
-                R = reactlib.make_reactor(s, tpl, invert=inp["invert"], strategy=st, mode=mode)
+                R = reactlib.make_reactor(s, tpl, invert=inp["invert"], strategy=st, mode=mode, automorphism=bool(inp.get("exact")))
                 rec[st] = keys(R.smarts_list)
                 R2, _ = reactlib.raw_reactor(R, s, tpl, invert=inp["invert"], strategy=st, mode=mode)
                 rec["raw_" + st] = keys(R2.smarts_list)
+                rec["model_" + st] = {}
+                if set(rec[st]) != set(rec["raw_" + st]):
+                    # diagnosis: is the difference exactly what the pruning algorithm as implemented (Prune.tla) produces?
+                    pm = reactlib.prune_model(R, s, tpl, invert=inp["invert"], strategy=st, mode=mode, keyfn=keys)
+                    rec["model_" + st] = pm or {}
             except Exception as e:
                 return {"_skip": "application-raised:" + type(e).__name__}
         vs.append(rec)
